@@ -164,8 +164,8 @@ pub fn property() -> Property {
         subs: vec![prop_sub(
             "faults",
             "small C07 connection scripts (1..2 requests, all roles, handler scripts, management records, reader/writer scripts) x every fault point of four kinds; evaluations count the injected executions; non-trivial = script with >= 40 client bytes and >= 2 write calls; distinct = hash of the script",
-            40,
-            1_500,
+            400,
+            8_000,
             |_| strategy(),
             test,
         )],
